@@ -24,7 +24,9 @@
 //	    after the outer call returned ("later" form).
 //	    children = ";"-separated <child link>~<stream the storage serves>~<tail>~<now form|->~<later form|->
 //	    observation = <outer status/node/raw>;inv=<0|1 reifier invoked>,ht=<TrustedStorage of the
-//	    handle it got | ->;<child 1 now>;<child 1 later>;... (each status/node/raw, or - if not made)
+//	    handle it got | ->;<child 1 now>;<child 1 later>;... (each status/node/raw, or - if not made);
+//	    K:ok | K:node|raw,... — every node / byte slice those loads returned is retained and read
+//	    again after all of them: changed ones are named
 //
 // tables: as in c05 (K<mhtype>=0|1 hasher registered, H<mhtype>.<data>=<digest>, E.., D..).
 package main
@@ -129,6 +131,17 @@ type kid struct {
 	now, later byte // load form, or '-'
 }
 
+// retained: what the loads of a reify scenario handed out, with its dump at that moment
+type retained struct {
+	node    datamodel.Node
+	raw     []byte
+	hasRaw  bool
+	nodeWas string
+	rawWas  string
+}
+
+var keep []*retained
+
 func loadVia(lsys *linking.LinkSystem, form byte, l datamodel.Link) string {
 	var n datamodel.Node
 	var raw []byte
@@ -162,6 +175,9 @@ func loadVia(lsys *linking.LinkSystem, form byte, l datamodel.Link) string {
 	}
 	if rawReturned {
 		rs = "x" + lib.Hex(string(raw))
+	}
+	if n != nil || rawReturned {
+		keep = append(keep, &retained{n, raw, rawReturned, ns, string(raw)})
 	}
 	return lib.LkErrClass(err, "decode") + "/" + ns + "/" + rs
 }
@@ -233,6 +249,7 @@ func reifyCase(out *lib.Out, id string, form byte, trusted bool, rmode string, p
 		}
 		return n, nil
 	}
+	keep = nil
 	outer := loadVia(&lsys, form, pl)
 	meta := "inv=0,ht=-"
 	if got != nil {
@@ -248,6 +265,21 @@ func reifyCase(out *lib.Out, id string, form byte, trusted bool, rmode string, p
 			depth = 0
 		}
 		obs = append(obs, nowObs[i], later)
+	}
+	var chg []string
+	for _, k := range keep {
+		if k.node != nil && lib.Dump(k.node) != k.nodeWas {
+			chg = append(chg, "node")
+		}
+		if k.hasRaw && string(k.raw) != k.rawWas {
+			chg = append(chg, "raw")
+		}
+	}
+	keep = nil
+	if len(chg) == 0 {
+		obs = append(obs, "K:ok")
+	} else {
+		obs = append(obs, "K:"+strings.Join(chg, ","))
 	}
 	var ks []string
 	for _, k := range kids {
